@@ -14,19 +14,25 @@ HARNESSES = {
 }
 RULE = ("histories over 2 drivers, up to 4 async sockets (TCP client with raw peer, UDP, acceptor; disconnect handler "
         "destroying the socket or not; receive handler keeping buffers or not), one send pool of 4, 3 ToDos: "
-        "create / send / step / peer send-close-reset-connect / driver-side send failure (next send() = ECONNRESET) / release / destroy socket (also inside its disconnect handler, "
+        "create / send / echo (a held RECEIVE buffer - owned by the socket's own receive pool - is handed back to Send/SendTo of "
+        "the same socket, as the repo's performance test does; afterwards the socket is destroyed with that send queued, or its driver goes "
+        "first, or the peer closes, or the send is carried out) / step / peer send-close-reset-connect / driver-side send failure (next send() = ECONNRESET) / release / destroy socket (also inside its disconnect handler, "
         "also with sends pending) / destroy driver before or after its sockets and ToDos / cancel-shift-drop of pending and "
         "finished ToDos / step of an empty driver; ops that would break a usage rule are refused by the harness and must be "
         "illegal in the model too. State-aware random walks (length 5..40); thorough adds every history of <= 4 (second prefix: 3) ops over a "
-        "18-letter alphabet after a fixed prefix. Each history runs in its own process under three builds. "
+        "19-letter alphabet after a fixed prefix. Each history runs in its own process under three builds. "
         "non-trivial = a socket or driver was destroyed with something still attached/pending, or a send hit an unregistered "
-        "socket / dead driver, or a finished ToDo was cancelled/shifted.")
+        "socket / dead driver, or a socket was destroyed (explicitly or at the end) with an echoed receive buffer queued, or a finished "
+        "ToDo was cancelled/shifted.")
 ASSUMPTIONS = [
     "single-threaded histories (cross-thread management is C04)",
     "a peer reset is explored only when no inbound data is unread (kernel behaviour on RST with unread data is not modelled)",
     "a write to a peer that already closed may succeed or fail (model outcome 'either')",
     "object lifetime inside libstdc++ (std::function destroyed while executing, as the repo's own test does in its disconnect "
     "handler) is below the model; the sanitizers are the evidence there",
+    "the model has no notion of the order in which the members of SocketAsyncImpl are destroyed (send queue before the receive "
+    "pool): that a queued echoed receive buffer finds its pool alive is checked on the implementation only (crash clause under "
+    "ASan / assertions), the model declares such a destruction legal",
     "usage rules taken from headers/tests: pools outlive their buffers (a socket is not destroyed while its receive buffers are "
     "held), no destruction of a socket inside its own receive handler, at most rxBufCount receive buffers held",
 ]
@@ -35,7 +41,8 @@ TRUSTED = ["ASan/UBSan/_GLIBCXX_ASSERTIONS/_GLIBCXX_SANITIZE_VECTOR as the detec
            "the transcript parser of Drive/C17.lean (lines -> typed observations of Spec/C17.lean); the predicate itself is "
            "Spec/C17.lean: specStep/specEnd, proved to accept every trace of the model (spec_holds_on_model), so a spec verdict "
            "is a difference between implementation and model"]
-ALL_TAGS = ["send", "send.unregistered", "send.nodriver", "dsock", "dsock.pending", "ddriver.empty", "ddriver.busy",
+ALL_TAGS = ["send", "send.unregistered", "send.nodriver", "echo", "echo.unregistered", "echo.nodriver",
+            "dsock", "dsock.pending", "dsock.echoed", "end.echoed", "ddriver.empty", "ddriver.busy",
             "step", "step.empty", "cancel", "cancel.finished", "shift", "shift.finished", "disc", "disc.selfdestroy",
             "fut.value", "fut.broken", "fut.exn", "skipped"]
 EXHAUSTIVE = {"thorough": False}
@@ -44,6 +51,7 @@ SHRINK = True
 
 def nontrivial(ops, tags):
     return any(t in tags for t in ("dsock.pending", "ddriver.busy", "send.unregistered", "send.nodriver",
+                                   "echo.unregistered", "echo.nodriver", "dsock.echoed", "end.echoed",
                                    "cancel.finished", "shift.finished", "disc.selfdestroy"))
 
 
@@ -68,12 +76,44 @@ def walk(rng):
             k = rng.choice(["tcp", "tcp", "tcp", "udp", "acc"])
             d = rng.choice(sorted(drivers))
             ondisc = 1 if (k == "tcp" and rng.random() < 0.4) else 0
-            hold = 1 if (not ondisc and k != "acc" and rng.random() < 0.3) else 0
+            hold = 1 if (not ondisc and k != "acc" and rng.random() < 0.4) else 0
             socks[i] = dict(kind=k, alive=True, hold=hold, drv=d)
             ops.append("sock %d %s %d %d %d 0" % (i, k, d, ondisc, hold))
         elif x < 0.30 and socks:
             i = rng.choice(sorted(socks))
             ops.append("send %d" % i)
+        elif 0.46 <= x < 0.52 and [i for i in alive if socks[i]["hold"]]:
+            # the echo idiom: a received buffer (of the socket's own receive pool) goes back into Send of the same socket,
+            # then the socket / its driver / its peer goes away with that send still queued - or the send is carried out
+            i = rng.choice([i for i in alive if socks[i]["hold"]])
+            d = socks[i]["drv"]
+            for _ in range(rng.choice([1, 1, 2])):
+                ops.append("psend %d" % i)
+                ops.append("step %d" % d)
+            ops.append("echo %d" % i)
+            if rng.random() < 0.3:
+                ops.append("echo %d" % i)
+            y = rng.random()
+            if y < 0.35:
+                if rng.random() < 0.5:
+                    ops.append("release %d" % i)
+                ops.append("dsock %d" % i)
+                socks[i]["alive"] = False
+            elif y < 0.50 and d in drivers:
+                ops.append("ddriver %d" % d)
+                drivers.discard(d); dead_drivers.add(d)
+                if rng.random() < 0.6:
+                    ops.append("release %d" % i)
+                    ops.append("dsock %d" % i)
+                    socks[i]["alive"] = False
+            elif y < 0.65 and socks[i]["kind"] == "tcp":
+                ops.append(rng.choice(["pclose %d", "preset %d"]) % i)
+                ops.append("step %d" % d)
+                if rng.random() < 0.5:
+                    ops.append("echo %d" % i)
+            elif y < 0.85:
+                ops.append("step %d" % d)
+            # else: left queued (the end of the history destroys the socket with it)
         elif x < 0.52 and (drivers or dead_drivers):
             ops.append("step %d" % rng.choice(sorted(drivers | dead_drivers) if rng.random() < 0.05 else sorted(drivers) or [0]))
         elif x < 0.62 and socks:
@@ -93,7 +133,7 @@ def walk(rng):
             if rng.random() < 0.7:
                 ops.append("step %d" % socks[i]["drv"])
         elif x < 0.74 and socks:
-            ops.append("release %d" % rng.choice(sorted(socks)))
+            ops.append(rng.choice(["release %d", "echo %d"]) % rng.choice(sorted(socks)))
         elif x < 0.82 and socks:
             i = rng.choice(sorted(socks))
             if socks[i]["hold"] and rng.random() < 0.8:
@@ -117,7 +157,8 @@ def walk(rng):
 
 
 ALPHABET = ["send 0", "sendfail 0", "step 0", "pclose 0", "preset 0", "psend 0", "dsock 0", "ddriver 0",
-            "send 1", "psend 1", "dsock 1", "cancel 1", "shift 1", "droptodo 1", "pconn 2", "dsock 2", "release 1", "todo 2 0 1"]
+            "send 1", "psend 1", "dsock 1", "cancel 1", "shift 1", "droptodo 1", "pconn 2", "dsock 2", "release 1", "todo 2 0 1",
+            "echo 1"]
 PREFIXES = [
     ["driver 0", "sock 0 tcp 0 0 0 0", "sock 1 udp 0 0 1 0", "sock 2 acc 0 0 0 0", "todo 1 0 1"],
     ["driver 0", "sock 0 tcp 0 1 0 0", "sock 1 udp 0 0 0 0", "sock 2 acc 0 0 0 0", "todo 1 0 0"],
@@ -157,7 +198,10 @@ LEVEL_TEXT = ("Machine-checked theorems about a lifecycle state machine of drive
               "registration in the two parallel vectors, peers, send queues with futures, pools and ToDos, in which every place where "
               "the C++ would be undefined is an explicit outcome: no legal history of any length reaches undefined behaviour; after a "
               "socket is destroyed none of its futures is pending (for every history); destruction in any order is legal and safe; the "
-              "pre-fix AsyncWantSend variant provably reaches UB on [attach; peer close; step; step; send]. Tied to /repo on every run by "
+              "pre-fix AsyncWantSend variant provably reaches UB on [attach; peer close; step; step; send]. The operations include the echo "
+              "idiom (a received buffer, owned by the socket's own receive pool, handed back to Send of the same socket; the socket may "
+              "then be destroyed with it queued): the theorems cover it, but the model has no notion of C++ member destruction order, so "
+              "that the queued buffer finds its pool alive is established on the implementation only (sanitizer/assert builds). Tied to /repo on every run by "
               "driving the real API with generated legal histories (each in its own process; asserts+ASan+UBSan+_GLIBCXX_ASSERTIONS+"
               "vector annotations, NDEBUG+ASan, and plain NDEBUG builds), comparing every handler invocation and future state with the "
               "model and evaluating the property on the observations (no crash, no handler after destruction, no dangling future). "
